@@ -71,6 +71,9 @@ structure Space (σ δ : Type) where
   dinf : δ
   /-- `delayCC_` (`setDelayCC`, parameter `delay_collision_checking`; default true) -/
   delayCC : Bool := true
+  /-- the classic loop as coded BEFORE fix e1b5ec649 (F340): `nbh[i] == nmotion` caches `motion->incCost`, the new motion's
+  CURRENT edge cost.  `false` (the default) = the code as it is now: it caches `nmotionIncCost`, the edge from `nmotion`. -/
+  classicOld : Bool := false
 
 /-- `RRTstar::Motion` -/
 structure Motion (σ α : Type) where
@@ -429,8 +432,10 @@ for i in 0..nbh.size():
       else valid[i] = -1;
   else { incCosts[i] = motion->incCost; costs[i] = motion->cost; valid[i] = 1; }
 ```
-AS CODED: the `else` branch caches the new motion's CURRENT `incCost` — which is `motionCost(nmotion, motion)` only as
-long as no earlier neighbour has replaced `nmotion` as the parent.  `stale` records when that was not so. -/
+Since fix e1b5ec649 the `else` branch reads `incCosts[i] = nmotionIncCost; costs[i] = nmotionCost` (two locals saved before
+the loop): `inc0` below.  BEFORE the fix (`Space.classicOld`, kept for trees that do not have it) it cached the new motion's
+CURRENT `incCost` — which is `motionCost(nmotion, motion)` only as long as no earlier neighbour has replaced `nmotion` as
+the parent.  `stale` records when that was not so (old variant only). -/
 
 /-- the loop variables: `motion->parent/incCost/cost`, `valid[]`, `incCosts[0..i)`, the planner state, the ghost. -/
 structure Classic (σ α δ : Type) where
@@ -443,10 +448,13 @@ structure Classic (σ α δ : Type) where
   stale : Bool
 
 /-- one pass of the classic loop for neighbour position `p.1`, motion index `p.2`. -/
-def classicStep (o : Obj σ α) (sp : Space σ δ) (ms : Array (Motion σ α)) (nmotion : Nat) (x : σ)
+def classicStep (o : Obj σ α) (sp : Space σ δ) (ms : Array (Motion σ α)) (nmotion : Nat) (x : σ) (inc0 : α)
     (a : Classic σ α δ) (p : Nat × Nat) : Classic σ α δ :=
   if p.2 = nmotion then
-    { a with incs := a.incs ++ [a.inc], valid := (p.1, 1) :: a.valid, stale := a.stale || decide (a.par ≠ nmotion) }
+    if sp.classicOld then
+      { a with incs := a.incs ++ [a.inc], valid := (p.1, 1) :: a.valid, stale := a.stale || decide (a.par ≠ nmotion) }
+    else
+      { a with incs := a.incs ++ [inc0], valid := (p.1, 1) :: a.valid }
   else
     match ms[p.2]? with
     | none => { a with incs := a.incs ++ [o.identity] }
@@ -467,7 +475,7 @@ def growInsertClassic (o : Obj σ α) (sp : Space σ δ) (s : St σ α δ) (nmot
   let inc0 := o.motionCost nm.state dstate
   let nk := nearestK sp s.motions dstate (sp.kNearest s.motions.size)
   let nbhP := (List.range nk.1.length).zip nk.1
-  let a := nbhP.foldl (classicStep o sp s.motions nmotion dstate)
+  let a := nbhP.foldl (classicStep o sp s.motions nmotion dstate inc0)
     { par := nmotion, inc := inc0, cost := o.combine nm.cost inc0, valid := [], incs := [], st := s, stale := false }
   { st := insertMotion { a.st with staleInc := a.st.staleInc || a.stale } dstate a.par a.cost a.inc nk.2,
     new := a.st.motions.size, valid := a.valid, incs := a.incs, nbhP := nbhP }
